@@ -169,10 +169,20 @@ fn main() {
                                          "owner": owner, "ttl": *g.rng.pick(&[0u32, 300, 3600]),
                                          "rtype": c, "rd": rd}));
                     }
-                    let mut e = json!({"ev": "record", "a": recs[0], "b": recs[1]});
                     let (a, b) = (recs[0].clone(), recs[1].clone());
-                    merge(&mut e, observe(|| observe_record_pair(&a, &b, false, false)));
-                    e
+                    if g.rng.chance(1, 2) {
+                        // the two records with their data in one of the data
+                        // representations, held differently on the two sides
+                        let rep = *g.rng.pick(&["all", "zone", "unknown", "ext"]);
+                        let xans = g.rng.below(3) as i64 - 1;
+                        let mut e = json!({"ev": "xrecord", "a": recs[0], "b": recs[1], "rep": rep, "xans": xans});
+                        merge(&mut e, observe(|| observe_xrecord(&a, &b, rep, xans, false, false)));
+                        e
+                    } else {
+                        let mut e = json!({"ev": "record", "a": recs[0], "b": recs[1]});
+                        merge(&mut e, observe(|| observe_record_pair(&a, &b, false, false)));
+                        e
+                    }
                 }
             }
             5 => {
